@@ -338,10 +338,11 @@ def glue_part3(T: Types, reg: Registry, C: dict, base_req, all_fields):
         return z3.ForAll([i], z3.Implies(z3.And(held_by(T, c.f(REC), i, c.arg("runner_ctx")), z3.Not(held_by(T, c.old(REC), i, c.arg("runner_ctx")))), handed))
 
     def ownership_frame(c):
-        """C11/C02: a record that ends with an owner is either untouched or owned by the calling runner"""
+        """C11/C02: a record that ends with an owner is either untouched or was claimed (PENDING) for the calling runner"""
         i = z3.Const(fresh_name("of"), ID.sort())
         return z3.ForAll([i], z3.Implies(z3.And(known(T, c.f(REC), i), OSTR.is_some(owner_of(T, c.f(REC), i))), z3.Or(
-            z3.Select(c.f(REC), i) == z3.Select(c.old(REC), i), owner_of(T, c.f(REC), i) == OSTR.some(T.RunnerCtx.get(c.arg("runner_ctx"), "runner_id")))))
+            z3.Select(c.f(REC), i) == z3.Select(c.old(REC), i),
+            z3.And(owner_of(T, c.f(REC), i) == OSTR.some(T.RunnerCtx.get(c.arg("runner_ctx"), "runner_id")), status_of(T, c.f(REC), i) == T.S("PENDING")))))
 
     def yielded_are_stored_ones(c):
         v = z3.Const(fresh_name("ys"), T.Invocation.sort())
